@@ -197,6 +197,28 @@ pub fn run(ctx: &'static Ctx) -> (&'static str, Value, Vec<&'static str>) {
             s1.dim("len_class", len_class(len));
         }
     }
+    // (1b) every literal of the source under test at the start of a file (alone, followed by a
+    // well-formed size-prefixed record, and after a valid header where a record would begin)
+    for (k, lit) in source_dictionary().iter().enumerate() {
+        let rec = record_raw(&[1, 2, 3, 4, 5, 6, 7], k % 2 == 1);
+        let mut a = lit.clone();
+        a.resize(24.max(lit.len()), b'.');
+        let mut b = a.clone();
+        b.extend_from_slice(&rec);
+        b.extend_from_slice(&rec);
+        let mut c = family(64, 1);
+        for (i, x) in lit.iter().enumerate() {
+            if 24 + i < c.len() {
+                c[24 + i] = *x;
+            }
+        }
+        for (j, bytes) in [lit.clone(), a, b, c].iter().enumerate() {
+            begin_case(CaseId { a: 7, b: k as u64, c: j as u64 });
+            check_bytes(ctx, bytes, &format!("source literal #{k} placement {j}"), &mut s1);
+            end_case();
+        }
+        s1.count("source_literal_inputs", 4);
+    }
     // (2) all strings of length <= 2; all strings of length 3..=6 (thorough 7) over an 8-symbol alphabet
     let s2: Stats = (0u32..=65536 + 256)
         .into_par_iter()
